@@ -212,20 +212,34 @@ theorem resized_axes (r : Rect) (s : Sz) (a : Anchor) :
 
 /-! ### `offset` -/
 
-/-- Offsetting by `n` moves every side by `n`, for non-degenerate results. -/
-theorem offset_moves_sides (r : Rect) (n : Int)
-    (hr : 0 < r.size.w ∧ 0 < r.size.h) (hn : 0 < (r.size.w : Int) + 2 * n ∧ 0 < (r.size.h : Int) + 2 * n)
+/-- Offsetting by `n ≥ 0` moves every side by `n` — also for rectangles with a zero width and/or
+height (repaired in /repo: the old code grew a zero sized side about its top left corner). -/
+theorem offset_grow_moves_sides (r : Rect) (n : Int) (hn : 0 ≤ n)
     (hb : (r.size.w : Int) + 2 * n ≤ 4294967295 ∧ (r.size.h : Int) + 2 * n ≤ 4294967295) :
     (r.offset n).tl.x = r.tl.x - n ∧ (r.offset n).tl.y = r.tl.y - n ∧
     ((r.offset n).size.w : Int) = r.size.w + 2 * n ∧ ((r.offset n).size.h : Int) = r.size.h + 2 * n := by
   unfold offset
+  have h0 : n ≥ 0 := hn
+  simp only [h0, if_true, Sz.satAdd, Sz.newEqual, satAddU32, Pt.sub_x, Pt.sub_y]
+  have h1 : r.size.w + n.toNat * 2 ≤ 4294967295 := by omega
+  have h2 : r.size.h + n.toNat * 2 ≤ 4294967295 := by omega
+  simp only [h1, h2, ↓reduceIte]
+  refine ⟨trivial, trivial, ?_, ?_⟩ <;> omega
+
+/-- Offsetting by `n` moves every side by `n`, whenever the result has a non-negative size on both
+axes (for `n < 0` a rectangle that is too small has no such result: `offset_collapse`). A zero sized
+input side is only excluded for `n < 0`, where nothing can be removed from it. -/
+theorem offset_moves_sides (r : Rect) (n : Int)
+    (hr : 0 ≤ n ∨ (0 < r.size.w ∧ 0 < r.size.h))
+    (hn : 0 < (r.size.w : Int) + 2 * n ∧ 0 < (r.size.h : Int) + 2 * n)
+    (hb : (r.size.w : Int) + 2 * n ≤ 4294967295 ∧ (r.size.h : Int) + 2 * n ≤ 4294967295) :
+    (r.offset n).tl.x = r.tl.x - n ∧ (r.offset n).tl.y = r.tl.y - n ∧
+    ((r.offset n).size.w : Int) = r.size.w + 2 * n ∧ ((r.offset n).size.h : Int) = r.size.h + 2 * n := by
   by_cases h0 : n ≥ 0
-  · simp only [h0, if_true, withCenter, center, centerOffset, Sz.satAdd, Sz.newEqual, satAddU32]
-    have h1 : r.size.w + n.toNat * 2 ≤ 4294967295 := by omega
-    have h2 : r.size.h + n.toNat * 2 ≤ 4294967295 := by omega
-    simp only [h1, h2, ↓reduceIte]
-    omega
-  · simp only [h0, if_false, withCenter, center, centerOffset, Sz.satSub, Sz.newEqual]
+  · exact offset_grow_moves_sides r n h0 hb
+  · unfold offset
+    have hr' : 0 < r.size.w ∧ 0 < r.size.h := by rcases hr with h | h; exact absurd h h0; exact h
+    simp only [h0, if_false, withCenter, center, centerOffset, Sz.satSub, Sz.newEqual]
     omega
 
 /-- A negative offset larger than the rectangle collapses it to zero size along that axis
@@ -244,5 +258,8 @@ example : ((⟨⟨0, 0⟩, ⟨7, 8⟩⟩ : Rect).intersection ⟨⟨2, 3⟩, ⟨
 example : ((⟨⟨0, 0⟩, ⟨7, 8⟩⟩ : Rect).envelope ⟨⟨2, 3⟩, ⟨10, 7⟩⟩) = ⟨⟨0, 0⟩, ⟨12, 10⟩⟩ := by decide
 example : (⟨⟨20, 20⟩, ⟨10, 20⟩⟩ : Rect).resized ⟨20, 10⟩ ⟨.center, .center⟩ = ⟨⟨15, 25⟩, ⟨20, 10⟩⟩ := by decide
 example : (⟨⟨5, 5⟩, ⟨4, 6⟩⟩ : Rect).offset (-1) = ⟨⟨6, 6⟩, ⟨2, 4⟩⟩ := by decide
+-- the zero sized cases the old `with_center(center(), size)` form got wrong: (5,5) 2x2 / (5,4) 2x5
+example : (⟨⟨5, 5⟩, ⟨0, 0⟩⟩ : Rect).offset 1 = ⟨⟨4, 4⟩, ⟨2, 2⟩⟩ := by decide
+example : (⟨⟨5, 5⟩, ⟨0, 3⟩⟩ : Rect).offset 1 = ⟨⟨4, 4⟩, ⟨2, 5⟩⟩ := by decide
 
 end EG.C16
